@@ -369,6 +369,10 @@ def coerce(ann, v, ctx):
                 return v
             if _isinst(v, int):
                 return v  # numerically equal; kept to avoid int->fp conversions
+            import numbers
+
+            if isinstance(v, numbers.Real):
+                return float(v)  # e.g. numpy scalars (only met when real numpy is in play)
             raise CoercionError("not a number")
         if ann is int:
             if _isinst(v, bool):
@@ -383,6 +387,10 @@ def coerce(ann, v, ctx):
                     if v == v // 1:
                         return int(v)
                 raise CoercionError("fractional float for int")
+            import numbers
+
+            if isinstance(v, numbers.Integral):
+                return int(v)
             raise CoercionError("not an int")
         if ann is bool:
             if _isinst(v, bool):
